@@ -117,7 +117,7 @@ def _run_chunk(chunk):
         return ("err", traceback.format_exc())
 
 
-def pmap(work, units, chunk=64, jobs=None):
+def pmap(work, units, chunk=64, jobs=None, inline_ok=True):
     """Run work(list_of_units) -> result over all units on a fork pool; yields results.
 
     `work` must be a module-level or closure function (fork start method: no pickling of it).
@@ -126,7 +126,7 @@ def pmap(work, units, chunk=64, jobs=None):
     jobs = jobs or NCPU
     _WORK = work
     units = list(units) if not isinstance(units, list) else units
-    if jobs <= 1 or len(units) <= chunk:
+    if inline_ok and (jobs <= 1 or len(units) <= chunk):
         for c in _chunks(units, chunk):
             with quiet():
                 r = _run_chunk(c)
